@@ -46,7 +46,8 @@ pub fn run_wf(block: u32, password: usize, dir: &str, items: Vec<Vec<u8>>) -> St
     if dir != "-" {
         for f in dir.split(',') {
             let parts: Vec<&str> = f.split(':').collect();
-            if parts.len() != 3 {
+            // `path:size:seed[:l]` — with `l` the recognised path is a symbolic link to the file stored elsewhere
+            if parts.len() != 3 && !(parts.len() == 4 && parts[3] == "l") {
                 return "bad-op".into();
             }
             let p = scratch.join(parts[0]);
@@ -54,7 +55,14 @@ pub fn run_wf(block: u32, password: usize, dir: &str, items: Vec<Vec<u8>>) -> St
                 let _ = std::fs::create_dir_all(d);
             }
             let (Ok(size), Ok(seed)) = (parts[1].parse::<usize>(), parts[2].parse::<usize>()) else { return "bad-op".into() };
-            if std::fs::write(&p, content(size, seed)).is_err() {
+            if parts.len() == 4 {
+                let store = scratch.join("store");
+                let _ = std::fs::create_dir_all(&store);
+                let real = store.join(format!("blob-{}-{}", size, seed));
+                if std::fs::write(&real, content(size, seed)).is_err() || std::os::unix::fs::symlink(&real, &p).is_err() {
+                    return "bad-op".into();
+                }
+            } else if std::fs::write(&p, content(size, seed)).is_err() {
                 return "bad-op".into();
             }
         }
